@@ -102,8 +102,12 @@ class TLCResult:
         self.violated = []  # names of invariants / properties TLC reported violated
         self.coverage = {}
         self.wall = 0.0
+        self.init_states = 0
 
 
+_RE_VERDICT = re.compile(r'<<"V", (\d+), \{([^{}]*)\}>>')
+_RE_JSONSTR = re.compile(r'"\{(?:[^"\\\n]|\\.)*\}"')
+_RE_INIT = re.compile(r"Finished computing initial states: (\d+) distinct state")
 _RE_STATES = re.compile(r"(\d+) states generated, (\d+) distinct states found")
 _RE_INV = re.compile(r"Invariant (\S+) is violated")
 _RE_PROP = re.compile(r"(?:Action property|Temporal property|property) (\S+) (?:is|was) violated", re.I)
@@ -144,14 +148,14 @@ def run_tlc(workdir, module, cfg, workers=NCPU, timeout=3600, env=None, simulate
         rc = -9
     r = TLCResult()
     r.stdout, r.rc, r.wall = out, rc, time.time() - t0
+    # PrintT(ToJson(..)) prints a quoted TLA+ string; workers print concurrently, so scan by pattern, not by line
+    for m in _RE_JSONSTR.finditer(out):
+        try:
+            r.json_lines.append(json.loads(json.loads(m.group(0))))
+        except ValueError:
+            pass
     for line in out.splitlines():
         s = line.strip()
-        if s.startswith('"{') and s.endswith('}"'):   # PrintT(ToJson(..)) prints a quoted TLA+ string
-            try:
-                r.json_lines.append(json.loads(json.loads(s)))
-                continue
-            except ValueError:
-                pass
         if s.startswith('<<"') and s.endswith(">>"):
             r.tuples.append(s)
             continue
@@ -167,6 +171,9 @@ def run_tlc(workdir, module, cfg, workers=NCPU, timeout=3600, env=None, simulate
         m = _RE_DEPTH.search(s)
         if m:
             r.depth = int(m.group(1))
+        m = _RE_INIT.search(s)
+        if m:
+            r.init_states = int(m.group(1))
         m = _RE_COV.match(s)
         if m:
             r.coverage[m.group(1)] = r.coverage.get(m.group(1), 0) + int(m.group(8))
@@ -261,11 +268,9 @@ def _validate_part(scratch, part, events, trace_module, cfg, workers, timeout, t
     if r.error or r.violated or r.rc != 0:
         raise MachineryError("trace validation (%s): rc=%s violated=%s %s\n%s" % (trace_module, r.rc, r.violated, r.error, r.stdout[-3000:]))
     verdicts = {}
-    for t in r.tuples:
-        if not t.startswith('<<"V"'):
-            continue
-        v = parse_tla_tuple(t)
-        verdicts[v[1]] = sorted(v[2])
+    # workers print concurrently and lines may interleave: scan the whole output by pattern, not line by line
+    for m in _RE_VERDICT.finditer(r.stdout):
+        verdicts[int(m.group(1))] = sorted(re.findall(r'"([^"]*)"', m.group(2)))
     if len(verdicts) != n or r.distinct != n + 1:
         raise MachineryError("trace validation (%s): %d events, %d verdicts, %d states" % (trace_module, n, len(verdicts), r.distinct))
     return verdicts, r
